@@ -415,6 +415,12 @@ func kindTag(v c05Val) string {
 func init() {
 	pool := c05Pool()
 	nEnum := len(c05BinOps) * len(pool) // case = (op, lhs): all rhs
+	// compound forms (appended after the older cases so that their indices stay put):
+	// one case per (compound operator, lhs) with all rhs, one per string of the
+	// string table, one for ++/--
+	compBase := nEnum + 3
+	nComp := len(c05CompoundOps) * len(pool)
+	nCompAll := nComp + len(c05Strings) + 1
 	wk.Register(&wk.Engine{
 		ID: "C05",
 		Plan: func(tier string) fw.Plan {
@@ -426,10 +432,12 @@ func init() {
 				Level: "exploration",
 				Rule: "phase enum: every operator of {+ - * / % & | << >> == != < <= > >=} on ALL ordered pairs of the int64/float64 boundary pools (complete enumeration), " +
 					"operands supplied as literals and as variables; unary - ^ on the pool; string +/* tables; cache-transparency identities for every i in -3..4098. " +
-					"phase trees: PRNG-generated expression trees (depth<=4, fully parenthesised) and unparenthesised chains of one precedence level (x op c1 op c2 ..., string/float/int first operand, literal and variable operands) evaluated natively in Go as the left fold. phase concurrent (race build): 8 independent interpreters (own environment each) evaluate integer operator chains at the same time, every result handed to a host probe that recomputes it natively (results of different interpreters are chosen congruent modulo 256 and 4096 and outside the small-value range); no race report allowed. An evaluation is non-trivial when the native reference is inside the property's stated domain; distinct = distinct (source, bindings).",
-				Assumptions: []string{"Go's own int64/float64 arithmetic, strconv and fmt are the reference", "operands outside the statement (bool/nil, float operands of % & | << >>, n*string) are not judged"},
+					"Compound forms (x op= y is x = x op y, x++/x-- is x = x +/- 1; same native reference as the binary operator): every operator of {+= -= *= /= &= |=} on ALL ordered pairs of the pools, ++/-- on the pools, the string tables (s += t, s += number, number += s, s *= n, s++), each through four kinds of places: a plain variable, a list element, a map member and a function parameter (complete enumeration, operands as literals and as variables, containers built by the script and supplied by the host). " +
+					"phase trees: PRNG-generated expression trees (depth<=4, fully parenthesised) and unparenthesised chains of one precedence level (x op c1 op c2 ..., string/float/int first operand, literal and variable operands) evaluated natively in Go as the left fold; PRNG-generated sequences of 2-4 compound assignments on one place (`t = v; t += a; t *= b - c; t++; t`, operand a leaf or an unparenthesised binary expression) evaluated natively as the fold of the binary operators. phase concurrent (race build): 8 independent interpreters (own environment each) evaluate integer operator chains at the same time, every result handed to a host probe that recomputes it natively (results of different interpreters are chosen congruent modulo 256 and 4096 and outside the small-value range); no race report allowed. An evaluation is non-trivial when the native reference is inside the property's stated domain; distinct = distinct (source, bindings).",
+				Assumptions: []string{"Go's own int64/float64 arithmetic, strconv and fmt are the reference", "operands outside the statement (bool/nil, float operands of % & | << >>, n*string) are not judged",
+					"a compound assignment `x op= y` / `x++` / `x--` denotes `x = x op y` / `x = x + 1` / `x = x - 1` with the operator of the statement (the language's definition of the compound forms); only the value stored in the place is judged, operands are free of side effects (evaluation order belongs to C07)"},
 				Phases: []fw.Phase{
-					{Name: "enum", Cases: nEnum + 3, Chunk: 60, Exhaust: true, TimeoutS: 600},
+					{Name: "enum", Cases: compBase + nCompAll, Chunk: 60, Exhaust: true, TimeoutS: 600},
 					{Name: "trees", Cases: nRand, Chunk: 100, TimeoutS: 900},
 					{Name: "concurrent", Race: true, Cases: nConc, Chunk: 4, TimeoutS: 900, Jobs: 4},
 				},
@@ -443,6 +451,8 @@ func init() {
 			e := ank.NewCoreEnv()
 			if c.Phase == "enum" {
 				switch {
+				case c.Index >= compBase:
+					c05CompoundEnum(c, e, pool, c.Index-compBase, nComp)
 				case c.Index < nEnum:
 					op := c05BinOps[c.Index/len(pool)]
 					x := pool[c.Index%len(pool)]
@@ -606,6 +616,10 @@ func init() {
 			for k := 0; k < 25; k++ {
 				c05Chain(c, e, k)
 			}
+			// sequences of compound assignments on one place: the fold of the binary operators
+			for k := 0; k < 12; k++ {
+				c05CompoundChain(c, e)
+			}
 		},
 	})
 }
@@ -767,4 +781,209 @@ func c05Concurrent(c *wk.Case) {
 	if len(bad) > 0 {
 		c.Violation("value:concurrent", strings.Join(bad, "; "), input)
 	}
+}
+
+// ---- compound assignment forms ----
+//
+// `x op= y` is `x = x op y` and `x++` / `x--` are `x = x + 1` / `x = x - 1`: the
+// value found in the place afterwards is the statement's `lhs op rhs`, with the
+// place's old value as the LEFT operand. The reference is c05Bin, the same
+// function the binary operator is judged by; pairs it calls unspecified are
+// skipped. Only the stored value is judged (not the value of the assignment
+// expression, about which the statement is silent) and the operands have no
+// side effects, so no evaluation order is assumed.
+
+// operators that have a compound form
+var c05CompoundOps = []string{"+", "-", "*", "/", "&", "|"}
+
+// c05Spell gives the spelling of an operand: its literal (negative ones in
+// parentheses) or, when it has none or asVar is set, the variable name bound to
+// it in defs.
+func c05Spell(v c05Val, name string, asVar bool, defs map[string]interface{}) string {
+	lit, ok := v.literal()
+	if !ok || asVar {
+		defs[name] = v.goValue()
+		return name
+	}
+	if strings.HasPrefix(lit, "-") {
+		return "(" + lit + ")"
+	}
+	return lit
+}
+
+// c05Compound checks one compound statement through the four kinds of places.
+// op is a binary operator ("*" stands for `*=`) or "++" / "--" (y is ignored);
+// alt varies how operands and containers are supplied: bit 0 = lhs through a
+// variable, bit 1 = rhs through a variable, bit 2 = which of list/map comes from
+// the host instead of a script literal (and the spelling m.k / m["k"]).
+func c05Compound(c *wk.Case, e *env.Env, op string, x, y c05Val, want c05Res, tag string, alt int) {
+	if want.unspec {
+		return
+	}
+	for place := 0; place < 4; place++ {
+		defs := map[string]interface{}{}
+		ls := c05Spell(x, "a", alt&1 != 0, defs)
+		stmt := func(p string) string { return p + op }
+		if op != "++" && op != "--" {
+			rs := c05Spell(y, "b", alt&2 != 0, defs)
+			stmt = func(p string) string { return p + " " + op + "= " + rs }
+		}
+		var src string
+		switch place {
+		case 0:
+			src = "t = " + ls + "; " + stmt("t") + "; t"
+		case 1:
+			if alt&4 != 0 {
+				delete(defs, "a")
+				defs["r"] = []interface{}{int64(0), x.goValue()}
+				src = stmt("r[1]") + "; r[1]"
+			} else {
+				src = "r = [" + ls + "]; " + stmt("r[0]") + "; r[0]"
+			}
+		case 2:
+			if alt&4 == 0 {
+				delete(defs, "a")
+				defs["m"] = map[string]interface{}{"k": x.goValue()}
+				src = stmt("m.k") + "; m.k"
+			} else {
+				src = "m = {\"k\": " + ls + "}; " + stmt("m[\"k\"]") + "; m[\"k\"]"
+			}
+		default:
+			src = "f = func(p) { " + stmt("p") + "; return p }; f(" + ls + ")"
+		}
+		c05Check(c, e, src, want, tag, defs)
+	}
+	c.Tag("op:" + tag)
+}
+
+// c05CompoundEnum: case k of the compound part of phase enum.
+func c05CompoundEnum(c *wk.Case, e *env.Env, pool []c05Val, k, nComp int) {
+	one := c05Val{kind: 'i', i: 1}
+	switch {
+	case k < nComp:
+		// (operator, lhs): all rhs of the numeric pools
+		op := c05CompoundOps[k/len(pool)]
+		x := pool[k%len(pool)]
+		for j, y := range pool {
+			c05Compound(c, e, op, x, y, c05Bin(op, x, y), op+"=:"+kindTag(x)+","+kindTag(y), j+k)
+		}
+	case k < nComp+len(c05Strings):
+		// string table, one string per case: s += t, s += number, number += s, s *= n, s++
+		// (s -= .., s /= .., n *= s are outside the statement: c05Bin says unspec)
+		sv := c05Val{kind: 's', s: c05Strings[k-nComp]}
+		alt := k
+		for _, t := range c05Strings {
+			tv := c05Val{kind: 's', s: t}
+			c05Compound(c, e, "+", sv, tv, c05Bin("+", sv, tv), "+=:string,string", alt)
+			alt++
+		}
+		for _, y := range pool {
+			c05Compound(c, e, "+", sv, y, c05Bin("+", sv, y), "+=:string,"+kindTag(y), alt)
+			c05Compound(c, e, "+", y, sv, c05Bin("+", y, sv), "+=:"+kindTag(y)+",string", alt+1)
+			if y.kind == 'i' {
+				c05Compound(c, e, "*", sv, y, c05Bin("*", sv, y), "*=:string,"+kindTag(y), alt+2)
+			}
+			alt++
+		}
+		for n := int64(-1); n <= 8; n++ {
+			nv := c05Val{kind: 'i', i: n}
+			c05Compound(c, e, "*", sv, nv, c05Bin("*", sv, nv), "*=:string,"+kindTag(nv), alt)
+			alt++
+		}
+		for a := 0; a < 8; a += 4 {
+			c05Compound(c, e, "++", sv, one, c05Bin("+", sv, one), "++:string", a|(alt&1))
+		}
+	default:
+		// x++ / x-- on the numeric pools
+		for j, x := range pool {
+			for a := 0; a < 8; a += 4 {
+				c05Compound(c, e, "++", x, one, c05Bin("+", x, one), "++:"+kindTag(x), a|(j&1))
+				c05Compound(c, e, "--", x, one, c05Bin("-", x, one), "--:"+kindTag(x), a|(j&1))
+			}
+		}
+	}
+}
+
+// c05CompoundChain: a PRNG-generated sequence of compound assignments on one
+// place; the native reference is the fold of the binary operators, the place's
+// value being the left operand of every step.
+func c05CompoundChain(c *wk.Case, e *env.Env) {
+	// sequences that leave the stated domain (string -= .., float &= .., huge
+	// repeats) are regenerated a few times before the slot is given up
+	for try := 0; try < 10; try++ {
+		if src, want, defs, ok := c05GenCompoundChain(c); ok {
+			c05Check(c, e, src, want, "compound-chain", defs)
+			c.Tag("compound-chain")
+			return
+		}
+	}
+	c.Excluded("compound-chain-outside-stated-domain")
+}
+
+func c05GenCompoundChain(c *wk.Case) (string, c05Res, map[string]interface{}, bool) {
+	r := c.Rng
+	defs := map[string]interface{}{}
+	leaf := func(first bool) (c05Val, string) {
+		var v c05Val
+		switch x := r.Intn(14); {
+		case first && x < 4:
+			v = c05Val{kind: 's', s: c05Strings[r.Intn(len(c05Strings))]}
+		case x < 6:
+			v = c05Val{kind: 'i', i: int64(r.Intn(12)) - 2}
+		case x < 8:
+			v = c05Val{kind: 'i', i: int64(r.Intn(5000))}
+		case x < 10:
+			v = c05Val{kind: 'i', i: c05Ints[r.Intn(len(c05Ints))]}
+		case x < 12:
+			v = c05Val{kind: 'f', f: c05Floats[r.Intn(len(c05Floats))]}
+		case x < 13:
+			v = c05Val{kind: 's', s: c05Strings[r.Intn(len(c05Strings))]}
+		default:
+			v = c05Val{kind: 'i', i: int64(r.Uint64() >> uint(r.Intn(64)))}
+		}
+		return v, c05Spell(v, "v"+strconv.Itoa(len(defs)), r.Intn(3) == 0, defs)
+	}
+	cur, ls := leaf(true)
+	place, get, pre := "t", "t", ""
+	switch r.Intn(4) {
+	case 0:
+		pre = "t = " + ls + "; "
+	case 1:
+		pre, place, get = "r = [0, "+ls+"]; ", "r[1]", "r[1]"
+	case 2:
+		pre, place, get = "m = {\"k\": "+ls+"}; ", "m.k", "m[\"k\"]"
+	default:
+		pre, place, get = "f = func(p) { ", "p", "return p }; f("+ls+")"
+	}
+	src := pre
+	wantErr := false
+	for n := 2 + r.Intn(3); n > 0 && !wantErr; n-- {
+		var res c05Res
+		if r.Intn(6) == 0 {
+			op := []string{"++", "--"}[r.Intn(2)]
+			res = c05Bin(op[:1], cur, c05Val{kind: 'i', i: 1})
+			src += place + op + "; "
+		} else {
+			op := c05CompoundOps[r.Intn(len(c05CompoundOps))]
+			y, rs := leaf(false)
+			if r.Intn(4) == 0 {
+				// unparenthesised binary right-hand side: t op= a op2 b is t = t op (a op2 b)
+				op2 := []string{"+", "-", "*"}[r.Intn(3)]
+				z, zs := leaf(false)
+				sub := c05Bin(op2, y, z)
+				if sub.unspec || sub.isErr || sub.isBool || len(sub.v.s) > 1<<12 {
+					return "", c05Res{}, nil, false
+				}
+				y, rs = sub.v, rs+" "+op2+" "+zs
+			}
+			res = c05Bin(op, cur, y)
+			src += place + " " + op + "= " + rs + "; "
+		}
+		if res.unspec || res.isBool || len(res.v.s) > 1<<12 {
+			return "", c05Res{}, nil, false
+		}
+		wantErr = res.isErr
+		cur = res.v
+	}
+	return src + get, c05Res{v: cur, isErr: wantErr}, defs, true
 }
